@@ -552,7 +552,6 @@ func vecLabelNames(p *Prog, field string, near *ssa.Function) ([]string, string)
 	return names, ""
 }
 
-
 // isIncCall: a call of the login counter's increment method, directly or
 // through an interface the provider implements.
 func isIncCall(cc *ssa.CallCommon, inc *ssa.Function) bool {
@@ -564,7 +563,6 @@ func isIncCall(cc *ssa.CallCommon, inc *ssa.Function) bool {
 	}
 	return false
 }
-
 
 // judgeRowTotal: every path of the row that emits emits once and counts once.
 func judgeRowTotal(c *Check, p *Prog, name string, row Row, total PCSet) bool {
